@@ -363,6 +363,59 @@ def shipped_host_links(ctx, prog_dir):
 
 
 # ------------------------------------------------------------------ Lean side
+def prove_audited(ctx, module, required, allow_extra_axioms):
+    """ctx.prove() with one difference: Lean wraps `AUDIT <name> axioms=[...]` lines longer than 120 columns (theorems with several
+    bv_decide axioms), which lib/vlib.py's line regex then misses; here the audit output is parsed across line breaks."""
+    src = os.path.join(vlib.LEAN, module.replace(".", "/") + ".lean")
+    bad = vlib.scan_forbidden(vlib.LEAN, module)
+    if bad:
+        ctx.proof["broken"].append({"theorem": "*", "why": "forbidden construct: %s" % bad[:3]})
+    ok, log = ctx.lake_build([module])
+    names_in_src = re.findall(r"^\s*theorem\s+([^\s:({\[]+)", open(src).read(), re.M)
+    if not ok:
+        ctx.proof["obligations"] += max(len(names_in_src), 1)
+        ctx.proof["broken"].append({"theorem": module, "why": "lake build failed",
+                                    "where": ["%s:%s" % f for f in sorted(set(re.findall(r"error: .*?([\w/]+\.lean):(\d+)", log)))][:10], "log": log[-3000:]})
+        return False
+    audit_dir = os.path.join(vlib.LEAN, ".audit")
+    os.makedirs(audit_dir, exist_ok=True)
+    af = os.path.join(audit_dir, module.replace(".", "_") + ".lean")
+    with open(af, "w") as f:
+        f.write("import WaVerif.Base.AuditCmd\nimport %s\n#audit_module %s\n" % (module, module))
+    with vlib.Lock("lake"):
+        rc, o = vlib.sh(["lake", "env", "lean", af], cwd=vlib.LEAN, timeout=1800)
+    found = {}
+    for m in re.finditer(r"AUDIT (\S+) axioms=\[(.*?)\]", o, re.S):
+        found[m.group(1)] = [a.strip() for a in re.sub(r"\s+", " ", m.group(2)).split(",") if a.strip()]
+    if rc != 0 or not found:
+        ctx.proof["obligations"] += 1
+        ctx.proof["broken"].append({"theorem": module, "why": "audit failed", "log": o[-2000:]})
+        return False
+    allgood = True
+    for req in required:
+        if not any(n == req or n.endswith("." + req) for n in found):
+            ctx.proof["obligations"] += 1
+            ctx.proof["broken"].append({"theorem": req, "why": "required theorem missing"})
+            allgood = False
+    for n, axs in sorted(found.items()):
+        ctx.proof["obligations"] += 1
+        extra = [a for a in axs if a not in vlib.STD_AXIOMS and not any(re.fullmatch(pat, a) for pat in allow_extra_axioms)]
+        if extra:
+            ctx.proof["broken"].append({"theorem": n, "why": "axioms outside allow-list: %s" % extra})
+            allgood = False
+        else:
+            ctx.proof["discharged"] += 1
+        ctx.proof["theorems"][n] = axs
+    if ctx.tier == "thorough":
+        with vlib.Lock("lake"):
+            rc, o = vlib.sh(["lake", "env", "leanchecker", module], cwd=vlib.LEAN, timeout=3000)
+        ctx.notes.append("leanchecker %s rc=%d" % (module, rc))
+        if rc != 0:
+            ctx.proof["broken"].append({"theorem": module, "why": "leanchecker rejected", "log": o[-2000:]})
+            allgood = False
+    return allgood
+
+
 def regenerate_templates(ctx, mods):
     """cut the C of every integer / integer-memory row out of the generated C, write Gen/C03Templates.lean"""
     tpls = []
@@ -492,7 +545,7 @@ def run(ctx):
                                     "no theorem for %s; theorem without template for %s (re-run tools/gen_c03_props.py)" % (
                                         sorted(want_rows - proved_rows)[:8], sorted(proved_rows - want_rows)[:8])})
     ok, log = ctx.lake_build(GP.modules())          # the row proofs, in parallel
-    ctx.prove(required=sorted(re.findall(r"^theorem (\w+) ", src, re.M)), allow_extra_axioms=BV_AX)
+    prove_audited(ctx, "WaVerif.Props.C03", sorted(re.findall(r"^theorem (\w+) ", src, re.M)), BV_AX)
     lap("lean_proofs_and_audit")
     model = ctx.build_model("c03")
     if model:
@@ -521,7 +574,7 @@ def run(ctx):
         if r["status"] == "ok":
             first_ok = first_ok or name
         elif r["status"] == "c-error":
-            m = re.search(r"// (\S+)", r["detail"])
+            m = re.search(r"// ([\w.]+)", r["detail"])
             key = ("%s:c-does-not-compile" % m.group(1)) if (r["kind"] == "c-does-not-compile" and m) else "program:%s:%s" % (name, r["kind"])
             ctx.violation(key, "whole module compiled from %s runs on the embedded runtime (output %r) but its wat2c C is unusable: %s" % (
                 os.path.basename(path), r["wasm_out"][:60], r["detail"]), {"program": open(path).read(), "detail": r["detail"], "wasm_out": r["wasm_out"]})
